@@ -884,10 +884,19 @@ func installHooks() {
 	rux.VerifHooks.Actions = hookActions
 }
 
+// EffPath is the path the router matches for a request with this URL path:
+// the escaped form when UseEncodedPath is set (ServeHTTP does the same).
+func (w *World) EffPath(path string) string {
+	if w.sc.Options.EncodedPath {
+		return (&url.URL{Path: path}).EscapedPath()
+	}
+	return path
+}
+
 // BuiltinFallback reports whether a request for (method, path) is answered by
 // rux's built-in 404/405 handler (whose writes the harness trace cannot show).
 func (w *World) BuiltinFallback(method, path string) bool {
-	route, _, allowed := w.R.Match(method, path)
+	route, _, allowed := w.R.Match(method, w.EffPath(path))
 	if route != nil {
 		return false
 	}
